@@ -770,26 +770,35 @@ func panicSignature(p string) string {
 }
 
 type canonT struct {
-	m map[string]string
+	keys [256]string
+	n    int
 }
 
-func newCanon() *canonT { return &canonT{m: map[string]string{}} }
+func newCanon() *canonT { return &canonT{} }
 
 // canon replaces random inbox names by their order of first appearance. It
-// is only called from Yield on the parking goroutine; one task runs at a
-// time, so the order of first appearance is deterministic.
+// is only called from Yield on the parking goroutine, under the scheduler's
+// lock; one task runs at a time, so the order of first appearance is
+// deterministic. It uses no map and is not instrumented, so that it is
+// invisible to the race detector.
+//
+//go:norace
 func (c *canonT) canon(s string) string {
 	i := strings.Index(s, "_INBOX.")
 	if i < 0 || strings.HasPrefix(s[i:], "_INBOX.peer.") {
 		return s
 	}
 	key := s[i:]
-	v, ok := c.m[key]
-	if !ok {
-		v = "INBOX#" + strconv.Itoa(len(c.m)+1)
-		c.m[key] = v
+	for k := 0; k < c.n; k++ {
+		if c.keys[k] == key {
+			return s[:i] + "INBOX#" + strconv.Itoa(k+1)
+		}
 	}
-	return s[:i] + v
+	if c.n < len(c.keys) {
+		c.keys[c.n] = key
+		c.n++
+	}
+	return s[:i] + "INBOX#" + strconv.Itoa(c.n)
 }
 
 func (CoreScenario) GenCase(r *rand.Rand, prop string) interface{} { return CoreScenario{}.Gen(r, prop) }
